@@ -1,12 +1,16 @@
 #!/bin/sh
-# usage: tools/try_mutant.sh <PROP> <patch> [tier]   — applies the patch to /repo, runs the check, always reverts
+# usage: tools/try_mutant.sh <PROP> <patch> [tier]
+# Evaluates a seeded change on a scratch worktree of /repo's HEAD (VERIF_REPO), so /repo
+# itself stays untouched and other checks can run meanwhile. Output goes to a scratch dir.
 P=$1; PATCH=$2; TIER=${3:-quick}
-cd /repo || exit 2
-git diff --quiet || { echo "/repo has local modifications"; exit 2; }
-git apply "$PATCH" || { echo "patch does not apply"; exit 2; }
+W=/tmp/mutrun/$P-$$
+mkdir -p /tmp/mutrun
+git -C /repo worktree add -q --detach "$W" HEAD || exit 2
+( cd "$W" && git apply "$PATCH" ) || { echo "patch does not apply"; git -C /repo worktree remove --force "$W"; exit 2; }
 cd /verif
-timeout 1500 ./check "$P" "$TIER" > /tmp/try_mutant.$P.log 2>&1
+VERIF_REPO="$W" VERIF_OUT="$W/.verifout" timeout 1500 ./check "$P" "$TIER" > /tmp/try_mutant.$P.$$.log 2>&1
 rc=$?
-git -C /repo checkout -- .
+git -C /repo worktree remove --force "$W"
 echo "exit=$rc"
-grep -a "^VIOLATION\|^  harness\|^INCONCLUSIVE\|^OK\|^KNOWN" /tmp/try_mutant.$P.log | cut -c1-260 | head -12
+grep -a "^VIOLATION\|^  harness\|^INCONCLUSIVE\|^OK\|^KNOWN" /tmp/try_mutant.$P.$$.log | cut -c1-260 | head -8
+rm -f /tmp/try_mutant.$P.$$.log
